@@ -88,6 +88,28 @@ def run(width):
                 break
     except BaseException as e:
         fail("py_striped_shape", "raised %s: %s" % (type(e).__name__, e), ctor=text)
+    # views taken AFTER the striped sequence was reused for scoring / scanning must still expose exactly the logical
+    # contents: shape (32, sequence rows), no look-ahead rows, same symbols
+    try:
+        st2 = lightmotif.stripe(text)
+        before = memoryview(st2).shape
+        sm.calculate(st2)
+        list(lightmotif.scan(sm, st2, threshold=-1000.0)) if hasattr(lightmotif, "scan") else None
+        mem2 = memoryview(st2)
+        cases += 1
+        if tuple(mem2.shape) != tuple(before):
+            fail("py_striped_getbuffer", "view shape %r after scoring, %r before (look-ahead rows visible)" % (tuple(mem2.shape), tuple(before)), ctor="L=%d,M=%d" % (len(text), width))
+        else:
+            R = nrows_seq(st2, text)
+            for p_, ch in enumerate(text):
+                if mem2[p_ // R, p_ % R] != "ACTGN".index(ch):
+                    fail("py_striped_getbuffer", "view after scoring does not hold symbol %d" % p_, ctor=text)
+                    break
+        c2 = st2.copy() if hasattr(st2, "copy") else None
+        if c2 is not None and tuple(memoryview(c2).shape) != tuple(before):
+            fail("py_striped_getbuffer", "view of a copy has shape %r" % (tuple(memoryview(c2).shape),), ctor=text)
+    except BaseException as e:
+        fail("py_striped_getbuffer", "raised %s: %s" % (type(e).__name__, e), ctor=text)
     try:
         scores = sm.calculate(st)
         logical = list(scores)       # iteration protocol via __getitem__/__len__ or __iter__
